@@ -280,6 +280,14 @@ def judge_smtp(result, peer, rcpts, lmtp, fault, fkind, fcode, info, first):
     if fault is None:
         api.fail('error-without-any-fault', got=type(val).__name__, **info)
     check_class(val, info)
+    if isinstance(val, PermanentRelayError) and peer is not None:
+        # a permanent failure of the whole message bounces every recipient:
+        # none of them may have been merely deferred (4xx) by the peer
+        for stage, action, arg in peer.log:
+            if stage == 'RCPT' and action[0] == 'reply':
+                api.prove(action[1][0:1] != '4',
+                          'deferred-recipient-reported-as-permanent-failure',
+                          rcpt_reply=action[1], **info)
     if fkind in ('malformed', 'close', 'stall') and fault and \
             fault[0] not in ('QUIT', 'RSET'):
         api.prove(isinstance(val, TransientRelayError),
